@@ -7,6 +7,9 @@ V = '/verif'
 only = None
 for i, a in enumerate(sys.argv):
     if a == '--only': only = sys.argv[i + 1].split(',')
+ids = None
+for i, a in enumerate(sys.argv):
+    if a == '--ids': ids = sys.argv[i + 1].split(',')
 thorough = '--thorough-if-missed' in sys.argv
 env = dict(os.environ, VERIF_EVIDENCE_DIR='/tmp/seed_evidence', CARGO_NET_OFFLINE='true')
 os.makedirs('/tmp/seed_evidence', exist_ok=True)
@@ -23,6 +26,7 @@ for sd in sorted(glob.glob(V + '/seeded/*/')):
     meta = json.load(open(mp))
     pid = meta['property']
     if only and pid not in only: continue
+    if ids and sid not in ids: continue
     res = {}
     patch = None
     for cand in ('patch.diff', 'patch_rebased.diff'):
@@ -42,10 +46,11 @@ for sd in sorted(glob.glob(V + '/seeded/*/')):
             except subprocess.TimeoutExpired as e:
                 rc, out = 124, (e.stdout or b'').decode() if isinstance(e.stdout, bytes) else (e.stdout or '')
             finally:
-                git('checkout', '--', '.')
+                git('checkout', '--', '.'); git('clean', '-fdq')
             viol = [l for l in out.split('\n') if l.startswith('VIOLATION')]
             what = [l.strip()[:300] for l in out.split('\n') if l.strip().startswith('what:')]
-            res[tier] = {'exit': rc, 'violations': len(viol), 'first': what[0] if what else None, 'wall_s': round(time.time() - t0, 1)}
+            keys = [l.strip()[5:].strip()[:160] for l in out.split('\n') if l.strip().startswith('key:')]
+            res[tier] = {'exit': rc, 'violations': len(viol), 'keys': keys[:6], 'first': what[0] if what else None, 'wall_s': round(time.time() - t0, 1)}
             if rc == 1 and viol: break
         res['patch'] = patch
     meta['detected_by'] = res
